@@ -96,4 +96,11 @@ PROPS = {
         'not_covered': ['atomicity of rename(2) (ASSUMED)', 'the whole "at every instant / killed at any point / concurrent readers" quantifier: no verifier here models crash points or concurrent observers', 'callers in clvmc.rs / py api'],
         'assumptions': ['POSIX: rename(2) within one directory replaces the target atomically', 'tempfile::NamedTempFile::persist is rename(2) when source and target are on the same file system'],
     },
+    'C11': {
+        'units': ['opts'],
+        'e3_always': ['entry_points'],
+        'e3': ['entry_points'],
+        'decided': 'the option derivation of the library entry point (compile_clvm_text_maybe_opt; Python, wasm, file-to-file) and of the command-line tool path (RunAndCompileInputData::new + compile_modern; run, cldb), extracted as expressions from the real text, are the same function of (do_optimize, stepping) and equal the rule optimize = do_optimize || stepping > 22, frontend_opt = stepping == 22; both hand do_optimize to the classic post-optimiser with the same options; the library wrapper requests optimisation; with compile_file and the post-optimiser as uninterpreted functions of (options, text) the emitted programs are equal (lemma)',
+        'not_covered': ['launch_tool / cldb argument plumbing', 'py and wasm wrappers', 'the classic (no sigil) branch', 'determinism of compile_file (C05)', 'byte equality of real outputs: bounded stand-in only (E3: 3 programs x cl21/22/23 x optimize on/off)'],
+    },
 }
